@@ -73,6 +73,7 @@ class SchedPool:
     def __init__(self, order, workers, unordered_perm, state_modules):
         self.order, self.workers, self.uperm, self.mods = order, workers, unordered_perm, state_modules
         self.wstate = {}
+        self.ncpus = self.nodes = max(workers) + 1 if workers else 1
 
     def __enter__(self):
         return self
